@@ -118,8 +118,17 @@ def gen_c11(rnd, sid, method):
             # delivered to it, and drops its last interest before it gets back to its loop
             who = rnd.choice([0, 1])
             if who == 1:
-                L += ["O tk 5", "T 1 tk_reg 5", "R tk 5 0 1 child %d %d %d" % (rnd.choice([101, 102]), rnd.choice([0, 1]), rnd.choice([0, 9])),
-                      "R tk 5 0 1 wait_unreg 4"]
+                if rnd.random() < 0.5:
+                    L += ["O tk 5", "T 1 tk_reg 5", "R tk 5 0 1 child %d %d %d" % (rnd.choice([101, 102]), rnd.choice([0, 1]), rnd.choice([0, 9])),
+                          "R tk 5 0 1 wait_unreg 4"]
+                else:
+                    # thread 1's own child dies and thread 1 signals it through the helper while the
+                    # thread that receives SIGCHLD is reaping it (the helper must decide under the lock)
+                    L += ["O tk 5", "T 1 tk_reg 5", "R tk 5 0 1 childof 4 %d %d %d" % (rnd.choice([0, 1]), rnd.choice([0, 9]), rnd.choice([0, 1, 1])),
+                          "R tk 5 0 1 wait_kill 4 %d" % rnd.choice([15, 9, 0])]
+                    if rnd.random() < 0.5:
+                        L += ["R tk 5 0 1 wait_kill 4 15"]
+                    late_spawn = 0      # SIGCHLD goes to the main thread
             else:
                 L += ["O tk 6", "S tk_reg 6", "R tk 6 0 1 yield", "R tk 6 0 1 child 104 %d %d" % (rnd.choice([0, 1]), rnd.choice([0, 9]))]
                 for i in range(1, n + 1):
@@ -195,6 +204,25 @@ def gen_c19(rnd, sid, method):
     return "\n".join([hdr(sid, rnd, method, extra)] + L + ["X"]) + "\n"
 
 
+SMALL = {
+    "C11": {
+        # thread 1's child dies; thread 1 signals it through the helper while the main thread, which receives
+        # SIGCHLD, reaps it: the helper must look at the interest under the lock
+        "kill-vs-reap": ("sigsim=1 maxcb=300 pids=101,102,103 chldthr=0",
+                         ["O wait 1", "O wait 4", "O tk 5", "S spawn 1", "T 1 iv_init", "T 1 wait_spawn 4", "T 1 tk_reg 5",
+                          "R tk 5 0 1 childof 4 0 0 1", "R tk 5 0 1 wait_kill 4 15", "R wait 4 0 1 wait_unreg 4",
+                          "T 1 iv_main", "T 1 iv_deinit", "S wait_spawn 1", "R wait 1 0 1 wait_unreg 1",
+                          "E 1 childof 1 0 0"]),
+        # a child of the main thread stops and continues while its owner is busy; the handler drops the interest
+        # at the first status (nothing may be delivered after that)
+        "stop-cont-unreg": ("sigsim=1 maxcb=300 pids=101,102,103 chldthr=1",
+                            ["O wait 1", "O wait 4", "O tk 5", "S spawn 1", "T 1 iv_init", "T 1 wait_spawn 4",
+                             "R wait 4 0 1 wait_unreg 4", "T 1 iv_main", "T 1 iv_deinit", "S wait_spawn 1", "S tk_reg 5",
+                             "R tk 5 0 1 childof 1 2 19", "R tk 5 0 1 yield", "R tk 5 0 1 childof 1 3 0", "R tk 5 0 1 yield",
+                             "R wait 1 0 1 wait_unreg 1", "E 1 childof 4 0 0", "E 2 childof 1 0 0"]),
+    },
+}
+
 GEN = {"C10": gen_c10, "C11": gen_c11, "C19": gen_c19}
 NEED = {
     "C10": ["C10:lost", "C10:spurious", "C10:wrong-thread", "C10:disposition", "C10:handoff", "C10:child-triggered"],
@@ -217,6 +245,17 @@ def run(pid, tier, seed, replay=None):
             n = 700 if tier == "quick" else 12000
             scripts = [GEN[pid](rnd, "%sr%d.%d" % (pid, seed, i), rnd.choice(["epoll", "epoll-timerfd", "poll", "ppoll"])) for i in range(n)]
         tfs = corerun.run_scripts(exe, scripts, sc, tag="run")
+        exhausted = []
+        if not replay:
+            # small two-thread scenarios whose schedules are enumerated (iterative context bounding)
+            import mtcheck
+            for name, (opts, body) in SMALL.get(pid, {}).items():
+                s_, t_, _n, complete = mtcheck.enumerate_schedules(exe, sc, name, body, "epoll " + opts, [],
+                                                                   150 if tier == "quick" else 3000, pid + "e")
+                scripts += s_
+                tfs += t_
+                if complete:
+                    exhausted.append(name)
         if not replay:
             # a share of the programs also runs on the instrumented build, where the
             # library's malloc'ed memory starts out as 0xCD garbage instead of zeroes
@@ -293,7 +332,7 @@ def run(pid, tier, seed, replay=None):
                     tail = r.split(":")[1]
                     if any(a == r or (tail in ("crash", "hang-real") and a.endswith(tail)) for a in again.get(sid, ())):
                         rep.violation(sign(pid, r, idx[sid]), vlib.save_replay_text(pid, idx[sid]), "script %s" % sid)
-        rep.add(evaluations=len(scripts), distinct_nontrivial=len(nontrivial), traces_validated_against_impl=len(verdicts),
+        rep.add(evaluations=len(scripts), schedules_exhausted=exhausted, distinct_nontrivial=len(nontrivial), traces_validated_against_impl=len(verdicts),
                 trace_events=nev, states=states + nev, transitions=trans + nev, model_checks=runs,
                 rules_exercised=dict(seen_rules), ends=dict(collections.Counter(v["why"] for v in verdicts)),
                 rule="executions = seeded scenario scripts (interests / children / requests, handler reactions, scripted signal "
